@@ -175,21 +175,29 @@ def windows(res, prog, cu):
             res.error('C04.5', 'scan body of %s not found' % arch)
             continue
         res.rule('C04.5', 1)
-        vals = {}
-        for l in range(len(f.locals)):
-            nm = f.local_name(l)
-            if nm in ('default_scan_range', 'extended_scan_range'):
-                vals[nm] = panics.resolve_items(prog, 'minidump_unwind', f.expand(('var', nm, l)))
-        d, e = vals.get('default_scan_range'), vals.get('extended_scan_range')
-        if d != ('int', 40) or not (e == ('int', 160) or (e and e[0] == 'bin' and e[1] == 'Mul' and e[2] == ('int', 40) and e[3] == ('int', 4))):
-            res.violation('C04.5', 'C04.5|scan|%s' % arch, f, f.line, 'scan window is %s / %s words, documented 40 / 160' % (d and show(d), e and show(e)))
+        # per variant of FrameTrust: the end of the range the scan iterates over (whatever the spelling of the choice:
+        # two locals and an `if let`, named constants and a `match`, ...)
+        adt = cu.adts.get('minidump_unwind::FrameTrust')
+        its = [(b, f.expand(f.operand_tree(t['args'][0]))) for b, t in f.calls() if (f.callee(t) or '').endswith('IntoIterator>::into_iter')]
+        its = [(b, a) for b, a in its if isinstance(a, tuple) and a[0] == 'adt' and str(a[1]).endswith('Range::Range') and len(a) == 4]
+        if adt is None or len(its) != 1:
+            res.error('C04.5', '%s: enum FrameTrust or the single `for i in a..b` of the scan not found (%d ranges)' % (arch, len(its)))
+            continue
+        ib, rg = its[0]
+        watch = normal.multi_def_leaves(f, rg)
+        ex = normal.VariantExplorer(f, adt, lambda x: isinstance(x, tuple) and len(x) == 3 and x[0] == 'field' and x[2] == 'trust' and 'callee_frame' in str(x[1]), watch=watch)
+        tb = C18.Tables(prog)
+        per = {}
+        for v in adt['variants']:
+            val = tb._fold(panics.resolve_items(prog, 'minidump_unwind', f.expand(normal.value_at(ex, v['name'], ib, rg))))
+            per[v['name']] = (show(val[2]), val[3][1] if isinstance(val[3], tuple) and val[3][0] == 'int' else show(val[3]))
+        want = dict((v['name'], ('0', 160 if v['name'] == 'Context' else 40)) for v in adt['variants'])
+        if per != want:
+            bad = dict((k, v) for k, v in per.items() if want.get(k) != v)
+            res.violation('C04.5', 'C04.5|scan|%s' % arch, f, f.line, 'the scan examines words %s; documented: 0..40, and 0..160 for the context frame' % ', '.join('%s..%s for %s' % (v[0], v[1], k) for k, v in sorted(bad.items())))
         else:
             res.sample({'rule': 'C04.5', 'arch': arch, 'scan_words': 40, 'context_frame_words': 160})
-        # the window really is scanned from its first to its last word: `for i in 0..scan_range`, slot i at sp + i * width
         res.rule('C04.5', 1)
-        rng = [show(f.expand(f.operand_tree(t['args'][0]))) for b, t in f.calls() if (f.callee(t) or '').endswith('IntoIterator>::into_iter')]
-        if rng != ['(adt std::ops::Range::Range 0 scan_range)']:
-            res.violation('C04.5', 'C04.5|range|%s' % arch, f, f.line, 'the scan iterates over %s, not over 0..scan_range: a slot at the edge of the documented window is never examined' % rng)
         addr = None
         for l in range(len(f.locals)):
             if f.local_name(l) in ('address_of_pc', 'address_of_ip'):
@@ -201,13 +209,9 @@ def windows(res, prog, cu):
     f = cu.fn('minidump_unwind::amd64::get_caller_by_frame_pointer')
     if f is not None:
         res.rule('C04.5', 1)
-        args = []
-        for b, t in f.calls():
-            if f.callee(t) == 'minidump_unwind::amd64::get_caller_by_frame_pointer::{closure#0}':
-                tr = panics.resolve_items(prog, 'minidump_unwind', f.expand(f.operand_tree(t['args'][1]))) if len(t['args']) > 1 else None
-                tr = C18.Tables(prog)._fold(tr) if tr is not None else None
-                if tr is not None and tr[0] == 'tuple':
-                    args.append(tuple(x[1] if x[0] == 'int' else show(x) for x in tr[1:]))
+        adt = prog.crate('minidump').adts.get('minidump::system_info::Os')
+        per = amd64_probe_per_os(prog, f, adt) if adt else None
+        args = sorted(set(p for ps in (per or {}).values() for p in ps), key=str)
         if (15, 16) not in args:
             res.violation('C04.5', 'C04.5|amd64-fp', f, f.line, 'Windows frame-pointer slack scan is %s, documented (15 steps, 16 bytes)' % args)
     c = prog.crate('minidump_unwind')
@@ -422,107 +426,11 @@ def ios_frame_pointer(res, prog, cu):
         res.violation('C04.12', 'C04.12|ios-fp', fs[0] if fs else None, None, 'the ARM frame-pointer technique is used on iOS only and follows "%s" (r11); on iOS the frame pointer is r7, so standard `push {r7, lr}; mov r7, sp` chains are not walked by frame pointer' % v['str'], file='minidump-unwind/src/arm.rs')
 
 
-def _unref(x):
-    while isinstance(x, tuple) and x and x[0] in ('ref', 'deref', 'copy', 'move') and len(x) >= 2:
-        x = x[-1]
-    return x
+import normal
 
 
 def variants_reaching(prog, fn, adt, is_subject, targets):
-    """For every variant of an enum: can a target block be reached from the entry when each decision on the subject
-    (a switch on its discriminant, or on PartialEq::eq / ne against a fieldless variant) is resolved for that variant?
-    Decisions the rule cannot resolve keep all their successors.  Returns (set of variant names, number of decisions resolved)."""
-    names = dict((v['name'], v) for v in adt['variants'])
-    resolved = set()
-
-    def decide(x, v):
-        x = _unref(x)
-        if not isinstance(x, tuple) or not x:
-            return None
-        if x[0] == 'discr' and is_subject(_unref(x[1])):
-            return v['discr']
-        if x[0] == 'call' and re.search(r'PartialEq(<[^>]*>)?>?::(eq|ne)$', str(x[1])) and len(x) >= 4:
-            a, b = _unref(x[2]), _unref(x[3])
-            if is_subject(b):
-                a, b = b, a
-            if is_subject(a) and isinstance(b, tuple) and b[0] == 'adt' and len(b) == 2 and str(b[1]).startswith(adt['path'] + '::'):
-                same = str(b[1]).rsplit('::', 1)[1] == v['name']
-                return int(same if str(x[1]).endswith('eq') else not same)
-        if x[0] in ('not',) and len(x) == 2:
-            r = decide(x[1], v)
-            return None if r is None else int(not r)
-        if x[0] == 'un' and len(x) == 3 and x[1] == 'Not':
-            r = decide(x[2], v)
-            return None if r is None else int(not r)
-        return None
-    # flag locals: the bare operands of switches, closed backwards under copies and `!` (the lowering of `matches!`,
-    # `||`, `&&`, `let flag = match ..`); their constant values are carried along each explored path
-    def bare(x):
-        pl = (x.get('m') or x.get('c')) if isinstance(x, dict) else None
-        return pl['l'] if pl and not pl.get('p') else None
-
-    def src(rv):
-        """(local, negated) when the rvalue is a copy or a negation of a bare local"""
-        if rv.get('k') == 'use':
-            l = bare(rv.get('x', {}))
-            return (l, False) if l is not None else None
-        if rv.get('k') in ('un', 'unary') and rv.get('op') == 'Not':
-            l = bare(rv.get('x', {}))
-            return (l, True) if l is not None else None
-        return None
-    flags = set(l for l in (bare(blk['t']['x']) for blk in fn.blocks if blk['t']['k'] == 'switch') if l is not None)
-    grew = True
-    while grew:
-        grew = False
-        for blk in fn.blocks:
-            for st_ in blk['s']:
-                if st_.get('k') == 'assign' and not st_['lhs'].get('p') and st_['lhs']['l'] in flags:
-                    sr = src(st_['rv'])
-                    if sr and sr[0] not in flags:
-                        flags.add(sr[0])
-                        grew = True
-    out = set()
-    for v in adt['variants']:
-        seen, st = set(), [(0, frozenset())]
-        while st:
-            b, env = st.pop()
-            if (b, env) in seen:
-                continue
-            seen.add((b, env))
-            blk = fn.blocks[b]
-            e = dict(env)
-            for st_ in blk['s']:
-                if st_.get('k') != 'assign' or st_['lhs'].get('p') or st_['lhs']['l'] not in flags:
-                    continue
-                l, rv = st_['lhs']['l'], st_['rv']
-                k = rv.get('x', {}).get('k') if rv.get('k') == 'use' and isinstance(rv.get('x'), dict) else None
-                sr = src(rv)
-                if isinstance(k, dict) and 'int' in k:
-                    e[l] = k['int']
-                elif sr and sr[0] in e:
-                    e[l] = int(not e[sr[0]]) if sr[1] else e[sr[0]]
-                else:
-                    r = decide(fn.expand(fn.rvalue_tree(rv)), v) if rv.get('k') != 'use' else None
-                    if r is not None:
-                        e[l] = r
-                    else:
-                        e.pop(l, None)
-            t = blk['t']
-            if t.get('dest') and not t['dest'].get('p'):
-                e.pop(t['dest']['l'], None)
-            env2 = frozenset(e.items())
-            succs = list(fn.succ[b])
-            if t['k'] == 'switch':
-                l = bare(t['x'])
-                r = e[l] if l in e else decide(fn.expand(fn.operand_tree(t['x'])), v)
-                if r is not None:
-                    resolved.add(b)
-                    tgt = [tg for val, tg in t['ts'] if val == r]
-                    succs = tgt or [t['o']]
-            st.extend((s_, env2) for s_ in succs)
-        if set(b for b, _ in seen) & set(targets):
-            out.add(v['name'])
-    return out, len(resolved)
+    return normal.variants_reaching(fn, adt, is_subject, targets)
 
 
 def _is_os(x):
@@ -561,30 +469,59 @@ def os_gates(res, prog, cu):
     if f is None:
         res.error('C04.13', 'minidump_unwind::amd64::get_caller_by_frame_pointer not found')
         return
-    probe, plain = [], []
-    for b, t in f.calls():
-        if not re.search(r'get_caller_by_frame_pointer::\{closure#\d+\}$', f.callee(t) or ''):
-            continue
-        a = f.expand(f.operand_tree(t['args'][1])) if len(t['args']) > 1 else None
-        if isinstance(a, tuple) and a[0] == 'tuple' and len(a) == 3:
-            n = a[1]
-            if n == ('int', 0):
-                plain.append(b)
-            elif isinstance(n, tuple) and n[0] == 'int':
-                probe.append((b, n[1], a[2]))
-    if not probe or not plain:
-        res.error('C04.13', 'the two calls of the amd64 frame-pointer resolver (probing / plain) were not found')
+    got = amd64_probe_per_os(prog, f, adt)
+    if got is None:
+        res.error('C04.13', 'no call of the amd64 frame-pointer resolver closure with a (slots, step) pair was found')
         return
-    gp, _n = variants_reaching(prog, f, adt, _is_os, [b for b, _, _ in probe])
-    gq, _n = variants_reaching(prog, f, adt, _is_os, plain)
     res.rule('C04.13', 2)
-    if gp != {'Windows'}:
-        res.violation('C04.13', 'C04.13|amd64-probe-os', f, None, 'the 240-byte frame-pointer probe is the Windows x64 precondition: it is reached for %s' % (', '.join('Os::' + x for x in sorted(gp)) or 'no OS'), file='minidump-unwind/src/amd64.rs')
-    if gq != allv - {'Windows'}:
-        res.violation('C04.13', 'C04.13|amd64-plain-os', f, None, 'the plain frame-pointer layout must be used for every OS but Windows: it is reached for %s' % (', '.join('Os::' + x for x in sorted(gq)) or 'no OS'), file='minidump-unwind/src/amd64.rs')
-    for b, n, step in probe:
-        if n != 15 or 'POINTER_WIDTH' not in str(step) or ('int', 2) not in (step[2:] if isinstance(step, tuple) else ()):
-            res.violation('C04.13', 'C04.13|amd64-slack', f, f.blocks[b]['t'].get('line'), 'the Windows x64 probe must cover 240 bytes of slack: 15 further slots of 2 * POINTER_WIDTH bytes; found (%s, %s)' % (n, show(step)), file='minidump-unwind/src/amd64.rs')
+    probing = set(v for v, pairs in got.items() if any(n != 0 for n, st in pairs))
+    plain = set(v for v, pairs in got.items() if pairs and all(n == 0 for n, st in pairs))
+    missing = set(v for v, pairs in got.items() if not pairs)
+    if probing != {'Windows'}:
+        res.violation('C04.13', 'C04.13|amd64-probe-os', f, None, 'the 240-byte frame-pointer probe is the Windows x64 precondition: it is applied for %s' % (', '.join('Os::' + x for x in sorted(probing)) or 'no OS'), file='minidump-unwind/src/amd64.rs')
+    if plain != allv - {'Windows'} or missing:
+        res.violation('C04.13', 'C04.13|amd64-plain-os', f, None, 'the plain frame-pointer layout must be used for every OS but Windows: it is used for %s%s' % (
+            ', '.join('Os::' + x for x in sorted(plain)) or 'no OS', ('; no resolver call is reached for ' + ', '.join(sorted(missing))) if missing else ''), file='minidump-unwind/src/amd64.rs')
+    for n, st in sorted(got.get('Windows', ()), key=str):
+        if n != 0 and (n != 15 or st != 16):
+            res.violation('C04.13', 'C04.13|amd64-slack', f, None, 'the Windows x64 probe must cover 240 bytes of slack: 15 further slots of 2 * POINTER_WIDTH = 16 bytes; found (%s, %s)' % (n, st), file='minidump-unwind/src/amd64.rs')
+
+
+def amd64_probe_per_os(prog, f, adt):
+    """variant of Os -> set of (slots, step) pairs handed to the resolver closure of amd64::get_caller_by_frame_pointer,
+    whatever the spelling: one call per arm with constant pairs, or one call fed by a pair chosen per arm"""
+    calls = []
+    watch = set()
+    for b, t in f.calls():
+        if not re.search(r'get_caller_by_frame_pointer::\{closure#\d+\}$', f.callee(t) or '') or len(t['args']) < 2:
+            continue
+        a = f.expand(f.operand_tree(t['args'][1]))
+        if not (isinstance(a, tuple) and a[0] == 'tuple' and len(a) == 3):
+            continue
+        if 'tracing::' in show(a):
+            continue
+        calls.append((b, a))
+        normal.multi_def_leaves(f, a, watch)
+    if not calls:
+        return None
+    ex = normal.VariantExplorer(f, adt, _is_os, watch=watch)
+    tb = C18.Tables(prog)
+    out = {}
+    for v in adt['variants']:
+        name = v['name']
+        pairs = set()
+        reached = set(b for (b, _e) in ex.states[name])
+        for b, a in calls:
+            if b not in reached:
+                continue
+            val = normal.value_at(ex, name, b, a)
+            val = tb._fold(panics.resolve_items(prog, 'minidump_unwind', f.expand(val)))
+            if isinstance(val, tuple) and val[0] == 'tuple' and len(val) == 3:
+                pairs.add(tuple(x[1] if isinstance(x, tuple) and x[0] == 'int' else show(x) for x in val[1:]))
+            else:
+                pairs.add((show(val), '?'))
+        out[name] = pairs
+    return out
 
 
 def run(tier, t0):
